@@ -104,7 +104,13 @@ def F11():
     return FallbackClient([a,b]).gets("k")!=(b"v",b"1")
 if __name__=="__main__":
     for n,f in list(globals().items()):
-        if n.startswith("F") and callable(f) and n not in ("FakeSock","FakeMod"):
+        if (n.startswith("F") or n.startswith("KF")) and callable(f) and n not in ("FakeSock","FakeMod"):
             try: r=f()
             except BaseException as e: r="ERR %r"%e
             print(n, "PRESENT" if r is True else ("absent" if r is False else r))
+
+def KF_hash_gat_positional():
+    m=FakeMod([b"END\r\n"])
+    c=HashClient([("h",1)], socket_module=m)
+    c.gat("k", 10)
+    return m.socks[0].sent==[b"gat 0 k\r\n"]
